@@ -52,39 +52,7 @@ def run(ctx):
 
 
 def _level_boxes(ctx):
-    """every level has a box of its own, the deeper one narrower than the parent's: a sprout seed may lie outside
-    its child's box.  Whatever the child does about that, the parent's recorded individual keeps its genome and
-    its fitness (monitors only)"""
-    from ..common import Slice, pmap
-
-    rng = ctx.rng(47)
-    n = ctx.boost(ctx.size(30, 300)) if hasattr(ctx, "boost") else 30
-    specs = []
-    for _ in range(n):
-        spec = runs.rand_spec(rng, nlev=2, engines={0: ["sea", "de", "shade", "ga"], 1: ["sea", "de", "local", "local"]}, objective=str(rng.choice(["four", "sphere"])), shared_problem=False,
-                              cutoff=None, precision_wrapper=None, stats_wrapper=False, gsc={"kind": "MetaepochLimit", "limit": int(rng.integers(3, 7))})
-        b = spec["bounds"]
-        inner = [[lo + 0.25 * (hi - lo) * float(rng.random() < 0.7), hi - 0.25 * (hi - lo) * float(rng.random() < 0.7)] for lo, hi in b]
-        spec["level_bounds"] = [b, inner]
-        width = float(min(hi - lo for lo, hi in inner))
-        for L in spec["levels"]:
-            L["sample_std_dev"] = 0.6 * width  # rejection sampling around a seed outside the child's box still terminates
-        spec["prior_tree"] = False
-        specs.append(spec)
-    sl = Slice("traced-runs-monitor-C02(a box of its own per level, the child's narrower)")
-    sl.is_trace = True
-    for spec, r in zip(specs, pmap(runs._monitor_worker, [(spec, PID, ()) for spec in specs], chunksize=2)):
-        if r["status"] != "ok":
-            sl.skipped += 1
-            sl.count("skipped:" + r["status"])
-            continue
-        sl.cases += 1
-        if len(r["demes"]) >= 2:
-            sl.nontrivial.add(runs.spec_id(spec))
-        for v in r["viol"]:
-            if v["signature"].startswith("C02/"):
-                sl.violations.append({"signature": v["signature"], "detail": v["detail"], "replay": {"spec": spec}})
-    return sl
+    return runs.level_boxes_batch(ctx, PID, ctx.size(30, 300), 47)
 
 
 def _nonfinite_selection(rng):
